@@ -110,6 +110,7 @@ func (s *State) assume(f string) {
 
 // FuncVerifier holds per-function verification state.
 type FV struct {
+	intW map[string]int // integer-mode bit widths of extract/concat terms
 	u      *Universe
 	prog   *ssa.Program
 	fn     *ssa.Function
@@ -354,4 +355,15 @@ func (fv *FV) entryHeapWF(h, sort string) {
 			fv.decls = append(fv.decls, fmt.Sprintf("(assert (forall ((r Int) (i Int)) (! (=> (<= r alloc!entry) (and %s)) :pattern ((select (select %s r) i)))))", strings.Join(conds, " "), h))
 		}
 	}
+}
+
+
+// pcHas: the path condition contains exactly this assertion.
+func (st *State) pcHas(t string) bool {
+	for _, h := range st.pc {
+		if h == t {
+			return true
+		}
+	}
+	return false
 }
